@@ -26,11 +26,11 @@ ASSUMPTIONS = [
     "decomposition only uses unambiguous shapes (pairs are 2-tuples; never 2-character strings)",
     "exception parity compares raised-vs-returned; when both raise the composite's exception class must be that of some failing member (or the union's ValueError)",
 ]
-PLAN = {"quick": dict(programs=4000, values=3, depth=3), "thorough": dict(programs=30000, values=6, depth=5)}
+PLAN = {"quick": dict(programs=4400, values=3, depth=3), "thorough": dict(programs=33000, values=6, depth=5)}
 FLOORS = {"quick": {"unmarshal_nodes_compared": 70000, "marshal_nodes_compared": 70000, "exception_parity_checked": 100000, "shape_sets_compared": 30000,
-                    "same_name_two_modules": 800, "builds_watched_for_warnings": 6000, "own_class_instance_sources": 20000, "reordered_sources": 15000, "revised_module_roots": 250, "generic_pair_roots": 250},
+                    "same_name_two_modules": 800, "builds_watched_for_warnings": 6000, "own_class_instance_sources": 20000, "reordered_sources": 15000, "revised_module_roots": 250, "generic_pair_roots": 250, "composite_key_roots": 250},
           "thorough": {"unmarshal_nodes_compared": 1200000, "marshal_nodes_compared": 1200000, "exception_parity_checked": 600000,
-                       "shape_sets_compared": 150000, "same_name_two_modules": 7000, "builds_watched_for_warnings": 50000, "own_class_instance_sources": 100000, "reordered_sources": 100000, "revised_module_roots": 2000, "generic_pair_roots": 2000}}
+                       "shape_sets_compared": 150000, "same_name_two_modules": 7000, "builds_watched_for_warnings": 50000, "own_class_instance_sources": 100000, "reordered_sources": 100000, "revised_module_roots": 2000, "generic_pair_roots": 2000, "composite_key_roots": 2000}}
 COMPOSITE = ("coll", "fixed", "mapping", "struct")
 
 
@@ -508,6 +508,78 @@ def generic_pair_case(sh, rng):
         sys.modules.pop(name, None)
 
 
+def composite_key_case(sh, rng):
+    """Mappings whose KEY type is composite (fixed / variadic tuple, frozenset, NamedTuple, frozen dataclass - beyond the key grammar
+    of U, where keys are scalars, enums and literals). The source is a Python mapping whose keys already ARE instances of the key
+    type's outer class but hold members in wire form: the key is a member like any other and converts by the routine of ITS type,
+    member by member. Expected values come from the harness's fixed leaf rules, no library call involved."""
+    import collections
+    import sys
+    import types
+
+    ta, tb = rng.sample(sorted(REV_LEAVES), 2)
+    tv = rng.choice(sorted(REV_LEAVES))
+    name = f"vkey_{rng.randrange(16**8):08x}"
+    mod = types.ModuleType(name)
+    mod.__file__ = f"/verif/out/generated/{name}.py"
+    sys.modules[name] = mod
+    src = ("import collections, dataclasses, datetime, decimal, typing, uuid\n"
+           f"class NT(typing.NamedTuple):\n    a: {ta}\n    b: {tb}\n"
+           f"@dataclasses.dataclass(frozen=True)\nclass FD:\n    a: {ta}\n    b: {tb}\n")
+    kind = rng.choice(["tuple2", "tuplevar", "frozenset", "namedtuple", "frozen-dataclass"])
+    ctor = rng.choice(["dict", "typing.Dict", "typing.Mapping", "collections.OrderedDict"])
+    position = rng.choice(["root", "field", "list-member", "mapping-value"])
+    try:
+        exec(compile(src, mod.__file__, "exec", dont_inherit=True), mod.__dict__)
+
+        def leaf(t):
+            w, v = rng.choice(REV_LEAVES[t])
+            return w, v
+
+        wire, want = {}, {}
+        for _ in range(rng.randrange(1, 4)):
+            (wa, va), (wb, vb), (wv, vv) = leaf(ta), leaf(tb), leaf(tv)
+            if kind == "tuple2":
+                ksrc, kw, kv = f"tuple[{ta}, {tb}]", (wa, wb), (va, vb)
+            elif kind == "tuplevar":
+                wc, vc = leaf(ta)
+                ksrc, kw, kv = f"tuple[{ta}, ...]", (wa, wc), (va, vc)
+            elif kind == "frozenset":
+                ksrc, kw, kv = f"frozenset[{ta}]", frozenset([wa]), frozenset([va])
+            elif kind == "namedtuple":
+                ksrc, kw, kv = "NT", mod.NT(wa, wb), mod.NT(va, vb)
+            else:
+                ksrc, kw, kv = "FD", mod.FD(wa, wb), mod.FD(va, vb)
+            wire[kw], want[kv] = wv, vv
+        if len(want) != len(wire):
+            sh.count("composite_key_collisions_skipped")
+            return
+        msrc = f"{ctor}[{ksrc}, {tv}]"
+        ns = mod.__dict__
+        if ctor == "collections.OrderedDict":
+            want = collections.OrderedDict(want)
+        if position == "root":
+            T, w, e = eval(msrc, ns), wire, want
+        elif position == "list-member":
+            T, w, e = eval(f"list[{msrc}]", ns), [wire], [want]
+        elif position == "mapping-value":
+            T, w, e = eval(f"dict[str, {msrc}]", ns), {"k": wire}, {"k": want}
+        else:
+            hsrc = f"@dataclasses.dataclass\nclass Holder:\n    cells: {msrc}\n"
+            src += hsrc
+            exec(compile(hsrc, mod.__file__, "exec", dont_inherit=True), ns)
+            T, w, e = mod.Holder, {"cells": wire}, mod.Holder(cells=want)
+        sh.count("composite_key_roots")
+        sh.count("composite_key_" + kind)
+        sh.eval(("composite-key", kind, ctor, position, ta, tb, tv, repr(wire)))
+        got = outcome(lambda x: typelib.unmarshal(T, x), w)
+        if got[0] != "ok" or canon(got[1], strict=True) != canon(e, strict=True):
+            sh.violation("mapping-key-not-memberwise", key_kind=kind, mapping=msrc, position=position, input=repr(w)[:400], expected=repr(e)[:400],
+                         got=repr(got)[:600], module_src=src)
+    finally:
+        sys.modules.pop(name, None)
+
+
 def canaries(sh):
     class Fake:
         def __init__(self):
@@ -534,6 +606,9 @@ def run_case(sh, i, plan):
         return
     if i % 12 == 7:
         generic_pair_case(sh, rng)
+        return
+    if i % 12 == 9:
+        composite_key_case(sh, rng)
         return
     opts = U.Opts(depth=rng.choice([2, 2, 3, plan["depth"]]), share_prob=0.4, none_members=True)
     extra = None
